@@ -58,17 +58,29 @@ def install_probes():
 SHUFFLE = {0: [], 1: [0], 2: [1, 0], 3: [1, 2, 0], 4: [2, 0, 3, 1], 5: [3, 0, 4, 1, 2], 6: [2, 5, 0, 3, 1, 4], 7: [3, 6, 1, 4, 0, 5, 2]}
 
 
+def _col(base, n):
+    """column values for n rows (the 7 hand-picked values, then a deterministic continuation)"""
+    return [base[i] if i < len(base) else float((base[i % len(base)] * 3 + i * 7) % 11) for i in range(n)]
+
+
 def table(n, has_z=True, has_ll=True, shuffled=False, nat=False, duptime=False):
     """rows in file order; with shuffled=True the time column is not monotonic (rows keep their order);
     with nat=True the second row has a missing time (None = NaT)."""
-    order = SHUFFLE[n] if shuffled else list(range(n))
-    d = dict(n=n, time=[T0 + i * DAY for i in order], v=V[:n], w=W[:n])
+    if shuffled:
+        order = SHUFFLE[n] if n in SHUFFLE else [(i * 7 + 3) % n for i in range(n)] if n % 7 else [(i * 5 + 3) % n for i in range(n)]
+    else:
+        order = list(range(n))
+    d = dict(n=n, time=[T0 + i * DAY for i in order], v=_col(V, n), w=_col(W, n))
     if nat and n >= 2:
         d["time"][1] = None
     if duptime:  # pairs of rows share a timestamp
         d["time"] = [T0 + (i // 2) * DAY for i in order]
     if has_z:
-        d["z"] = Z[:n]
+        d["z"] = [5.0 * i for i in range(n)] if n > len(Z) else Z[:n]
+    if has_ll:
+        d["lat"] = _col(LAT, n)
+        d["lon"] = _col(LON, n)
+        return d
     if has_ll:
         d["lat"] = LAT[:n]
         d["lon"] = LON[:n]
